@@ -1,3 +1,4 @@
+#define PENDING_OK 1
 #include "c07/common.h"
 /* C07.update_base_hostname: host := input, "//" added if there was no authority; nothing else changes */
 void harness(void) {
@@ -7,6 +8,7 @@ void harness(void) {
   __CPROVER_assume((input.n > 0 && input.p[0] == '[') || IN_CLASS(input, ':', ':', ':', ':', ':'));
   __CPROVER_assume(!v0.dash_dot && !old.base.has_opaque_path);          /* call sites: dash-dot is deleted by the caller right after */
   __CPROVER_assume(input.n > 0 || (v0.username.n == 0 && !v0.has_password && !v0.has_port));
+  __CPROVER_assume(!v0.pending_at || input.n > 0);
   __CPROVER_assume(u.buffer.n + input.n + 3 <= STR_CAP);
   agg_update_base_hostname(&u, input);
   EDITOR_EPILOGUE(F_HOST | F_AUTH)
